@@ -1,4 +1,4 @@
-import BitbybitModel.Lemmas.GetterBody
+import BitbybitModel.Props.Examples
 /-!
 # C01 — the getter returns exactly the declared bits (LSB0) for every raw value
 
@@ -37,25 +37,7 @@ theorem getter_ignores_other_bits (raw raw' lo n : Nat)
 theorem getter_value_lt (raw lo n : Nat) : field raw lo n < 2 ^ n := field_lt raw lo n
 
 /-! ### non-vacuity: concrete layouts satisfy the hypotheses -/
-
-/-- `#[bitfield(u127)]` with `#[bit(126, r)] top: bool` -/
-def exTop : FieldDef := {
-  name := "top", ranges := [⟨126, 1⟩], unsignedFieldType := none, array := none,
-  fieldTypeSize := 0, getter := true, setter := false, fromDataType := some 0, useRegularInt := true,
-  primitiveType := .u8, custom := none, docs := 0 }
-example : FieldOk (Base.new 127) exTop := by
-  unfold exTop
-  constructor <;> simp [FieldDef.reach, maxEnd, Base.new, FieldDef.totalBits, ITy.signed]
-
-example : (Base.new 127).WF := ⟨by decide, by decide, rfl⟩
-
-/-- `#[bitfield(u32)]` with `#[bits(0..=31, rw)] all: u32` (full width) -/
-def exAll : FieldDef := {
-  name := "all", ranges := [⟨0, 32⟩], unsignedFieldType := none, array := none,
-  fieldTypeSize := 32, getter := true, setter := true, fromDataType := some 32, useRegularInt := true,
-  primitiveType := .u32, custom := none, docs := 0 }
-example : FieldOk (Base.new 32) exAll := by
-  unfold exAll
-  constructor <;> simp [FieldDef.reach, maxEnd, Base.new, FieldDef.totalBits, ITy.signed, ITy.bits]
+example := getter_contiguous Ex.noTypes true (Base.new 127) Ex.top (2 ^ 126) 126 1 Ex.wf127 Ex.top_ok rfl rfl rfl
+example := getter_contiguous Ex.noTypes false (Base.new 32) Ex.all 0xDEADBEEF 0 32 Ex.wf32 Ex.all_ok rfl rfl rfl
 
 end Bb.C01
